@@ -75,7 +75,7 @@ RECURSIVE SetToSeq(_)
 SetToSeq(S) == IF S = {} THEN <<>> ELSE LET x == CHOOSE y \in S : TRUE IN <<x>> \o SetToSeq(S \ {x})
 
 Read(p) ==
-  /\ pc[p] = "read" /\ Step(p, "open-read") /\ UNCHANGED <<F, T>>
+  /\ pc[p] = "read" /\ Step(p, "open") /\ UNCHANGED <<F, T>>
   /\ LET m == ReadNow
          o == Ops[p]
      IN CASE Mutating(o) ->
@@ -99,7 +99,7 @@ Reread(p) ==
   /\ IF loc[p].ks = <<>> THEN Step(p, "end-items") /\ loc' = loc /\ Finish(p, [NoRes EXCEPT !.m = loc[p].acc])
      ELSE LET k == Head(loc[p].ks)
               m == ReadNow
-          IN /\ Step(p, "open-read")
+          IN /\ Step(p, "open")
              /\ IF m[k] # 0 THEN loc' = [loc EXCEPT ![p].ks = Tail(@), ![p].acc = [@ EXCEPT ![k] = m[k]]] /\ UNCHANGED <<res, pc>>
                 ELSE loc' = loc /\ Finish(p, KeyErr)
 
@@ -118,7 +118,12 @@ Close(p) == /\ pc[p] = "close" /\ Step(p, "close") /\ UNCHANGED <<F, T, loc, res
 Unlink(p) == /\ pc[p] = "unlink" /\ Step(p, "unlink") /\ F' = NoFile /\ UNCHANGED <<T, loc, res>> /\ Goto(p, "rename")
 Rename(p) == /\ pc[p] = "rename" /\ Step(p, "rename") /\ UNCHANGED <<loc, res>>
              /\ IF T[p].ex THEN F' = T[p] /\ T' = [T EXCEPT ![p] = NoFile] ELSE UNCHANGED <<F, T>>
-             /\ Goto(p, "prune")
+             /\ Goto(p, IF "file_remove_before_rename" \in Deviations THEN "prune" ELSE "after")
+\* os.renames pruned the source's parent (ENOTEMPTY); os.replace does not: "after" is the same step without a call
+After(p) == /\ pc[p] = "after" /\ UNCHANGED <<F, T, res, sched>>
+            /\ IF Ops[p].t = "open" /\ loc[p].ph = 1 /\ "file_open_rewrites" \in Deviations
+               THEN loc' = [loc EXCEPT ![p].ph = 2] /\ Goto(p, "read")
+               ELSE loc' = loc /\ Goto(p, "done")
 Prune(p) == /\ pc[p] = "prune" /\ Step(p, "rmdir-parent") /\ UNCHANGED <<F, T, res>>
             /\ IF Ops[p].t = "open" /\ loc[p].ph = 1 /\ "file_open_rewrites" \in Deviations
                THEN loc' = [loc EXCEPT ![p].ph = 2] /\ Goto(p, "read")      \* the constructor's update({})
@@ -126,7 +131,7 @@ Prune(p) == /\ pc[p] = "prune" /\ Step(p, "rmdir-parent") /\ UNCHANGED <<F, T, r
 Kill(p) == /\ CRASH /\ pc[p] # "done" /\ ~dead[p]
            /\ dead' = [dead EXCEPT ![p] = TRUE] /\ Goto(p, "done") /\ Step(p, "KILL")
            /\ UNCHANGED <<F, T, loc, res>>
-Act(p) == Read(p) \/ Reread(p) \/ Exists(p) \/ Creat(p) \/ Write(p) \/ Close(p) \/ Unlink(p) \/ Rename(p) \/ Prune(p)
+Act(p) == Read(p) \/ Reread(p) \/ Exists(p) \/ Creat(p) \/ Write(p) \/ Close(p) \/ Unlink(p) \/ Rename(p) \/ Prune(p) \/ After(p)
 Next == \E p \in 1..NP : (Act(p) /\ UNCHANGED dead) \/ Kill(p)
 Spec == Init /\ [][Next]_vars
 
